@@ -51,7 +51,7 @@ TruncateTrailer == /\ trailer = "present" /\ trailer' = "truncated" /\ startx' =
 Next == /\ Len(ops) < 2
         /\ \/ \E k \in {1, 7, 1000} : ShiftAll(k)
            \/ \E n \in Obj, how \in {"zero", "other", "eof"} : CorruptEntry(n, how)
-           \/ DeleteTable \/ \E k \in {0, 1} : BadHeader(k)
+           \/ DeleteTable \/ \E k \in {0, 1, 2, 3} : BadHeader(k)      \* 0: count far too large, 1: not numbers, 2 / 3: the subsection starts one / two objects late
            \/ DeleteStartxref \/ \E v \in {"zero", "eof", "midbody"} : StartxrefTo(v)
            \/ TruncateTrailer
 Spec == Init /\ [][Next]_vars
